@@ -111,6 +111,44 @@ def determinism_L(seed):
                 res["detail"] = "in one process, the second run of the same history answered differently: " + f"{h1[j][:200]} vs {h2[j][:200]}"
                 res["requests"] = req2[starts[k]:starts[k + 1]]
                 break
+    # the same histories in another order, in another process: what the process did before must not matter
+    try:
+        hs = []
+        for r in req:
+            if r.startswith("reset"):
+                hs.append([r])
+            elif hs:
+                hs[-1].append(r)
+        d3 = os.path.join(WORK, "det3"); os.makedirs(d3, exist_ok=True)
+        rev = os.path.join(d3, "in.txt")
+        open(rev, "w").write("\n".join("\n".join(h) for h in reversed(hs)) + "\n")
+        rc, out, err = sh([harness_bin("chan_l"), "file:" + rev, "0", "0", d3], timeout=600)
+        if rc == 0 and not res["differs"]:
+            def split(reqs, imps):
+                out, cur = {}, None
+                for r, a in zip(reqs, imps):
+                    if r.startswith("reset"):
+                        cur = [[], []]
+                        out.setdefault("\n", []).append(cur)
+                    if cur is not None:
+                        cur[0].append(r); cur[1].append(a)
+                return out.get("\n", [])
+            first = {"\n".join(h[0]): h[1] for h in split(req, a)}
+            other = split(open(os.path.join(d3, "req.txt")).read().split("\n"), open(os.path.join(d3, "impl.txt")).read().split("\n"))
+            cmpd = 0
+            for h in other:
+                k = "\n".join(h[0])
+                if k in first:
+                    cmpd += 1
+                    if first[k] != h[1]:
+                        j = next((i for i in range(min(len(first[k]), len(h[1]))) if first[k][i] != h[1][i]), 0)
+                        res["differs"] = True
+                        res["detail"] = "the same history answered differently when the process had driven other histories before it: " + f"{first[k][j][:200]} vs {h[1][j][:200]}"
+                        res["requests"] = h[0]
+                        break
+            res["reordered_histories_compared"] = cmpd
+    except Exception as e:
+        res["reordered_histories_compared"] = f"not run: {e}"
     return res
 
 
@@ -659,6 +697,8 @@ def decide_L(prop, tier, seed, t0, replay):
     }
     if det is not None:
         cov["two_process_lines_compared"] = det["lines"]
+        cov["same_history_twice_in_one_process_pairs"] = det.get("in_process_pairs")
+        cov["histories_compared_after_reordering"] = det.get("reordered_histories_compared")
     if "record_types_measured" in an:
         cov["compiled_modules_with_size_align_measured"] = an["record_types_measured"]
     if "modules_compiled" in an:
